@@ -8,6 +8,7 @@ import (
 
 	"github.com/brimdata/super"
 	"github.com/brimdata/super/internal/verif"
+	"github.com/brimdata/super/zcode"
 	"github.com/brimdata/super/zbuf"
 )
 
@@ -269,4 +270,57 @@ func VerifH_C01_O9b_stream_threads_recycle() {
 // verif:unwind 64
 func VerifH_C01_O9c_stream_threads_compressed() {
 	v01gRun(2, true)
+}
+
+// verif:desc C01-O9r a values frame LARGER than the default frame threshold through the threaded scanner with happens-before race detection: a 600 KiB string (one uncompressed frame of its own) followed by two small values, read with Threads 2 and the default read size: the parser goroutine goes on reading (and refilling/compacting its read buffer) while a worker decodes the large frame, so the frame's bytes must have been copied out of the read buffer before the frame was handed over.  Asserted: the three values come back in order with their bytes; no two goroutines touch the same memory (read buffer, frame buffers, batches) without an ordering (candidate confirmed with the Go race detector).
+// verif:bounds one 600 KiB string (concrete bytes), a 10 KiB string, EndStream, then int64 and {a:int64}; source chunks of 4 KiB; Compress off; FrameThresh default (512 KiB); Threads 2; cooperative goroutines, ONE schedule (race detection is schedule-independent for accesses that are not ordered at all)
+// verif:outside other schedules; compressed large frames; several large frames
+// verif:tier thorough
+func VerifH_C01_O9r_large_frame_threads_races() {
+	verif.Schedules(0)
+	verif.Races(true)
+	sink := &v01CapSink{}
+	wctx := zed.NewContext()
+	w := NewWriterWithOpts(sink, WriterOpts{})
+	big := make([]byte, 600<<10)
+	for i := range big {
+		big[i] = byte('a' + i%23)
+	}
+	ra := wctx.MustLookupTypeRecord([]zed.Field{zed.NewField("a", zed.TypeInt64)})
+	// (a 10 KiB value follows, so that the parser has to refill its read buffer
+	// right after it has handed the large frame to a worker)
+	mid := make([]byte, 10<<10)
+	for i := range mid {
+		mid[i] = byte('A' + i%19)
+	}
+	vals := []zed.Value{
+		zed.NewValue(zed.TypeString, big),
+		zed.NewValue(zed.TypeString, mid),
+		zed.NewInt64(7),
+		zed.NewValue(ra, zcode.Append(nil, zed.EncodeInt(9))),
+	}
+	for i, v := range vals {
+		verif.Assert(w.Write(v) == nil, "write-noerr")
+		if i == 1 {
+			// the 10 KiB value gets a frame of its own
+			verif.Assert(w.EndStream() == nil, "endstream-noerr")
+		}
+	}
+	verif.Assert(w.Close() == nil, "close-noerr")
+	// (the source hands out 4 KiB at a time: the read buffer holds little more
+	// than the large frame, so the frames after it need a refill)
+	src := &v01ChunkReader{data: sink.data, chunk: 4096}
+	r := NewReaderWithOpts(zed.NewContext(), src, ReaderOpts{Threads: 2})
+	for i := range vals {
+		val, err := r.Read()
+		verif.Assert(err == nil && val != nil, "read-noerr")
+		if err != nil || val == nil {
+			return
+		}
+		verif.Assert(len(val.Bytes()) == len(vals[i].Bytes()), "length-preserved")
+		verif.Assert(v01Eq(val.Bytes(), vals[i].Bytes()), "bytes-preserved")
+	}
+	val, err := r.Read()
+	verif.Assert(err == nil && val == nil, "eof-after-last")
+	verif.Reach("end")
 }
